@@ -470,3 +470,99 @@ func ruleC13SharedDocument(c *Ctx) {
 // shared with C09 / C14: the parsed selectors in the process-wide cache are shared by all queries (a write is cross-talk
 // and a data race); a nested execution whose wait group is not chained loses the happens-before edge to the caller
 func init() { register("C13", ruleC09ParsedImmutable, ruleC14NestedWaits) }
+
+func init() { register("C13", ruleC13ParallelGuard); register("C10", ruleC13ParallelGuard) }
+
+// ruleC13ParallelGuard: the ON expression is evaluated from several goroutines only when it cannot touch query state.
+func ruleC13ParallelGuard(c *Ctx) {
+	c.Doc("c13.parallel-guard", "the parallel nested-loop matcher (ParallelJoinFunc) evaluates the ON expression on the one shared *Query from one goroutine per key; the expression evaluators write query state without a lock (FunExpr/AggrFunExpr: the ONCE/aggregate memo map; SelectExpr/FunExpr: the post-processor list). Every call of ParallelJoinFunc is therefore dominated by isParallelSafe(j.joinExpr) being true, and isParallelSafe answers true only for AND/OR trees of comparisons between two column references (and boolean literals): a concurrent map write is a fatal error that no recover can stop")
+	pj := c.P.Method(modPath, "Join", "ParallelJoinFunc")
+	safe := c.P.Func(modPath, "isParallelSafe")
+	if pj == nil {
+		c.Unknown("c13.parallel-guard", "(*Join).ParallelJoinFunc", "-", "anchor lost")
+		return
+	}
+	n := 0
+	for _, f := range c.P.ModFuncs {
+		allInstrs(f, func(b *ssa.BasicBlock, in ssa.Instruction) {
+			call, ok := in.(*ssa.Call)
+			if !ok || call.Common().StaticCallee() != pj {
+				return
+			}
+			n++
+			guarded := false
+			for _, fc := range factsAt(b) {
+				cond, truth := fc.cond, fc.truth
+				for {
+					u, isU := cond.(*ssa.UnOp)
+					if !isU || u.Op != token.NOT {
+						break
+					}
+					cond, truth = u.X, !truth
+				}
+				if gc, isCall := cond.(*ssa.Call); isCall && safe != nil && gc.Common().StaticCallee() == safe && truth {
+					if strings.Contains(NewTB().Of(gc.Call.Args[0]).String(), "joinExpr") {
+						guarded = true
+					}
+				}
+			}
+			c.Check(guarded, "c13.parallel-guard", "ParallelJoinFunc <- "+c.P.funcKey(f), c.P.Pos(call.Pos()), "called only when isParallelSafe(j.joinExpr)", "the parallel nested-loop matcher is started without checking that the ON expression is free of query state: `PARALLEL JOIN ... ON x.id = y.id AND ONCE.f()` writes the memo map from several goroutines (fatal error: concurrent map writes)")
+		})
+	}
+	if n == 0 {
+		c.Unknown("c13.parallel-guard", "(*Join).ParallelJoinFunc", c.P.Pos(pj.Pos()), "no call site found")
+	}
+	if safe == nil {
+		c.Fail("c13.parallel-guard", "isParallelSafe", "-", "no predicate isParallelSafe: nothing decides whether an ON expression may be evaluated concurrently")
+		return
+	}
+	c.Fn("isParallelSafe")
+	// the predicate's table: true only on the admitted node kinds
+	paths, err := WalkFunc(safe, WalkCfg{MaxVisits: 1})
+	if err != nil {
+		c.Unknown("c13.parallel-guard", "isParallelSafe", c.P.Pos(safe.Pos()), err.Error())
+		return
+	}
+	var why []string
+	for _, p := range paths {
+		if p.Exit != "return" || len(p.Ret) != 1 {
+			continue
+		}
+		kind := ""
+		for _, k := range p.Order {
+			kt := p.KeyTerm[k]
+			if kt != nil && kt.Op == "ext" && kt.Name == "1" && kt.Args[0].Op == "assertok" && kt.Args[0].Args[0].Op == "param" {
+				if v, _ := p.Assumed(k); v && kind == "" {
+					kind = kt.Args[0].Name
+				}
+			}
+		}
+		r := p.Ret[0]
+		mayBeTrue := r.C == nil || isTrueC(r.C)
+		if !mayBeTrue {
+			continue
+		}
+		switch kind {
+		case "*sqlparser.ComparisonExpr":
+			// true only with both operands column references
+			both := 0
+			for k, v := range p.Asg {
+				kt := p.KeyTerm[k]
+				if kt != nil && kt.Op == "ext" && kt.Name == "1" && kt.Args[0].Op == "assertok" && kt.Args[0].Name == "*sqlparser.ColName" && isTrueC(v) {
+					both++
+				}
+			}
+			if r.C != nil && both < 2 {
+				why = append(why, "a comparison is declared safe although an operand is not a plain column reference")
+			}
+		case "*sqlparser.AndExpr", "*sqlparser.OrExpr":
+			if r.C != nil || !strings.Contains(termStr(r.T), "isParallelSafe(") {
+				why = append(why, kind+" is declared safe without examining both operands")
+			}
+		case "sqlparser.BoolVal":
+		default:
+			why = append(why, "a node of kind "+kind+" (or an unknown kind) is declared safe: its evaluator may write query state")
+		}
+	}
+	c.Check(len(why) == 0, "c13.parallel-guard", "isParallelSafe", c.P.Pos(safe.Pos()), "true only for AND/OR trees of column-to-column comparisons and boolean literals", strings.Join(uniq(why), "; "))
+}
